@@ -8,13 +8,15 @@ Proved here, for every key, data, chunking, algorithm, size declaration, entry p
   carrying that integrity and the byte count;
 * **read-back** (`read_back_by_address`, `read_back_by_key`): in the state a successful write
   leaves, reading by the returned address and by the key yields exactly the data.
-Hypotheses of the read-back, each spelled out: the record codec laws (`Codec.Laws`, the JSON /
-checksum round trip — a separate proof obligation, validated by correspondence meanwhile), the
-digest not colliding on {data, what sits at the address}, the bucket being settled, and the
-address being occupied by a regular file (a directory or a dangling link there is damage).
-Not proved here (`_partial` in the name): that the healthy run *does* answer ok on every healthy
-filesystem — the success of each individual call (no file where a directory is needed, …) is
-exercised by the correspondence only.
+Hypotheses of the read-back: the digest not colliding on {data, what sits at the address} and the
+address being occupied by a regular file (a directory or a dangling link there is damage).  The
+record codec laws are proved (`Lemmas/CodecLaws`), no hypothesis about them is left.
+* **end to end** (`write_then_read_by_key`, `faulty_write_then_read_by_key`, `write_hash_then_read`):
+  the two composed;
+* **refinement with total correctness** (`cache_refines_map`, `read_after_write`,
+  `readHash_after_writeHash`, `get_returns_last_put_data`): on a healthy cache every write of every
+  shape SUCCEEDS, and any sequence of operations answers like an abstract key/value map over a
+  content store; write-then-read returns exactly the data with no collision hypothesis at all.
 -/
 import Cacache.Lemmas.ReadBack
 import Cacache.Props.C05
